@@ -81,6 +81,13 @@ CHECKS = {
        'compile(...).method over every combination of namespaces/flags/custom.',
   design_ref='DESIGN.md §4 C03',
   technique='CrossHair symbolic execution of real API + z3 (unbounded limit), reference-model oracle, replay'),
+ 'C15': dict(
+  text='Symbolic/enumerative checking of the real value types and cache: Eq/hash consistency of the IR value types with '
+       'symbolic field values (strings, ints, bools incl. True==1), of compile() over 19x19 argument tuples with and '
+       'without purge; setattr/delattr on every slot of every node; pickle/copy/deepcopy; all histories of 4 '
+       'compile/purge calls before an observed compile compared with a cache-bypassing parse; cache bound filled past 500.',
+  design_ref='DESIGN.md §4 C15',
+  technique='CrossHair symbolic execution of real value types + z3 (symbolic fields, histories by symbolic index), replay'),
 }
 
 NOT_APPLICABLE = {
